@@ -163,6 +163,7 @@ fn families(tier: Tier) -> Vec<(&'static str, Vec<String>, usize)> {
                 "HGET k1 f", "HGET k1 z", "HDEL k1 f", "HDEL k1 f g", "HDEL k1 z", "HDEL k1 f f", "HGETALL k1", "HKEYS k1", "HVALS k1", "HLEN k1",
                 "HEXISTS k1 f", "HEXISTS k1 z", "HINCRBY k1 f 1", "HINCRBY k1 g 5", "HINCRBY k1 f -1", "HINCRBY k1 f 9223372036854775807",
                 "HINCRBY k1 g -9223372036854775808", "HINCRBY k1 h x", "HINCRBY k1 h 1", "EXPIRE k1 100", "TTL k1", "DEL k1", "TYPE k1", "SET k1 s",
+                "HSCANALL k1", "HSCANALL k1 1",
             ],
             vec![],
         ),
@@ -191,7 +192,7 @@ fn families(tier: Tier) -> Vec<(&'static str, Vec<String>, usize)> {
                 "ZRANGEBYSCORE k1 -inf +inf", "ZRANGEBYSCORE k1 1 2 WITHSCORES", "ZRANGEBYSCORE k1 (1 +inf", "ZRANGEBYSCORE k1 -inf +inf LIMIT 0 1",
                 "ZRANGEBYSCORE k1 -inf +inf LIMIT 1 -1", "ZRANGEBYSCORE k1 -inf +inf LIMIT -1 1", "ZRANGEBYSCORE k1 0 x", "ZRANGEBYSCORE k1 -inf +inf LIMIT 1 0",
                 "ZRANGEBYSCORE k1 -inf +inf WITHSCORES LIMIT 1 1", "ZRANGEBYSCORE k1 0 0",
-                "DEL k1", "EXPIRE k1 100", "TTL k1", "TYPE k1", "EXISTS k1", "SET k1 s",
+                "DEL k1", "EXPIRE k1 100", "TTL k1", "TYPE k1", "EXISTS k1", "SET k1 s", "ZSCANALL k1", "ZSCANALL k1 1",
             ],
             vec![
                 zadd,
@@ -215,6 +216,7 @@ fn families(tier: Tier) -> Vec<(&'static str, Vec<String>, usize)> {
                 "HSET k1 f x", "HGET k1 f", "HDEL k1 f", "HGETALL k1", "HKEYS k1", "HVALS k1", "HLEN k1", "HEXISTS k1 f", "HINCRBY k1 n 1",
                 "ZADD k1 2 x", "ZADD k1 XX 2 x", "ZREM k1 a", "ZRANGE k1 0 -1", "ZREVRANGE k1 0 -1", "ZSCORE k1 a", "ZRANK k1 a", "ZCARD k1", "ZCOUNT k1 -inf +inf", "ZRANGEBYSCORE k1 -inf +inf",
                 "TYPE k1", "EXISTS k1", "EXPIRE k1 100", "PERSIST k1", "PTTL k1", "RENAME k1 k2", "RENAMENX k1 k2",
+                "HSCANALL k1", "ZSCANALL k1", "SUBSTR k1 0 -1", "SUBSTR k1 1 2",
             ]
             .iter()
             .map(|s| s.to_string())
@@ -336,6 +338,63 @@ impl Sys {
                     }
                 }
             };
+        }
+        if name == "HSCANALL" || name == "ZSCANALL" {
+            // full cursor iteration of HSCAN / ZSCAN (optionally with COUNT): the collected pairs are the hash's
+            // fields and values / the sorted set's members and scores; a wrong type is a WRONGTYPE error
+            let cmd = if name == "HSCANALL" { "HSCAN" } else { "ZSCAN" };
+            let count = op.get(2).map(|c| String::from_utf8_lossy(c).to_string());
+            let want: Result<BTreeSet<(Vec<u8>, String)>, ()> = match self.model.keys.get(&op[1]).map(|e| &e.val) {
+                None => Ok(BTreeSet::new()),
+                Some(model::MVal::Hash(h)) if cmd == "HSCAN" => Ok(h.iter().map(|(f, v)| (f.clone(), resp::esc(v))).collect()),
+                Some(model::MVal::ZSet(z)) if cmd == "ZSCAN" => Ok(z.iter().map(|(sc, m)| (m.clone(), model::fmt_score(*sc))).collect()),
+                Some(_) => Err(()),
+            };
+            let mut cursor = b"0".to_vec();
+            let mut got: Vec<(Vec<u8>, String)> = Vec::new();
+            for round in 0..64 {
+                let mut a: Argv = vec![cmd.as_bytes().to_vec(), op[1].clone(), cursor.clone()];
+                if let Some(c) = &count {
+                    a.push(b"COUNT".to_vec());
+                    a.push(c.as_bytes().to_vec());
+                }
+                match self.exec_impl(&a) {
+                    RespValue::Error(e) if round == 0 && want.is_err() && e.starts_with("WRONGTYPE") => return (None, "wrongtype".into()),
+                    RespValue::Array(Some(parts)) if parts.len() == 2 && want.is_ok() => {
+                        let next = match &parts[0] {
+                            RespValue::BulkString(Some(b)) => b.clone(),
+                            other => return (Some(("scan-iteration".into(), format!("{cmd} cursor is not a bulk string: {}", resp::show(other)))), "scan-error".into()),
+                        };
+                        let items: Vec<Vec<u8>> = match &parts[1] {
+                            RespValue::Array(Some(xs)) => xs.iter().filter_map(|x| if let RespValue::BulkString(Some(b)) = x { Some(b.clone()) } else { None }).collect(),
+                            other => return (Some(("scan-iteration".into(), format!("{cmd} items are not an array: {}", resp::show(other)))), "scan-error".into()),
+                        };
+                        if items.len() % 2 != 0 {
+                            return (Some(("scan-iteration".into(), format!("{cmd} returned an odd number of items: {}", resp::show(&parts[1])))), "scan-error".into());
+                        }
+                        for c in items.chunks(2) {
+                            let second = if cmd == "ZSCAN" { model::string2d(&c[1]).map(model::fmt_score).unwrap_or_else(|| resp::esc(&c[1])) } else { resp::esc(&c[1]) };
+                            got.push((c[0].clone(), second));
+                        }
+                        if next == b"0" {
+                            let want = want.unwrap();
+                            let shown = format!("{:?}", got.iter().map(|(a, b)| format!("{}={}", resp::esc(a), b)).collect::<Vec<_>>());
+                            let got_set: BTreeSet<(Vec<u8>, String)> = got.iter().cloned().collect();
+                            return if got_set != want {
+                                (Some(("scan-items".into(), format!("full {cmd} iteration returned {shown}, content is {:?}", want.iter().map(|(a, b)| format!("{}={}", resp::esc(a), b)).collect::<Vec<_>>()))), shown)
+                            } else {
+                                (None, shown)
+                            };
+                        }
+                        cursor = next;
+                    }
+                    other => {
+                        let exp = if want.is_err() { "a WRONGTYPE error" } else { "[cursor, items]" };
+                        return (Some((format!("exp={} got={}", if want.is_err() { "-WRONGTYPE" } else { "array" }, resp::kind(&other)), format!("{cmd} replied {} where {exp} was expected", resp::show(&other)))), resp::show(&other));
+                    }
+                }
+            }
+            return (Some(("scan-iteration".into(), format!("{cmd} iteration did not return cursor 0 within 64 calls"))), "scan-error".into());
         }
         let got = self.exec_impl(op);
         let exp = self.model.exec(op, &got);
